@@ -22,10 +22,14 @@ def settings(version_list, with_fp=True):
         if v >= 8 and with_fp:
             out.append({"version": v, "optimize": {"scratch_slots": False, "frame_pointers": True}})
             out.append({"version": v, "optimize": {"scratch_slots": True, "frame_pointers": True}})
+        # no OptimizeOptions at all: the defaults of the version (from version 9 the slot optimiser, from 8 frame pointers)
+        out.append({"version": v, "optimize": None})
     return out
 
 
 def same_but_scratch(a, b) -> bool:
+    if a["optimize"] is None or b["optimize"] is None:
+        return False
     oa, ob = dict(a["optimize"]), dict(b["optimize"])
     return a["version"] == b["version"] and oa.get("frame_pointers", False) == ob.get("frame_pointers", False)
 
@@ -53,6 +57,12 @@ def build_jobs(t: str, sd: int):
             for other in ss[1:]:
                 cmp = ["userslots"] + (["exits"] if same_but_scratch(base, other) else [])
                 add(name, rec, opts, base, other, cmp)
+    # slot numbers taken in unusual places
+    for v in ([6, 10] if not thorough else [5, 6, 8, 9, 10]):
+        for (name, rec, opts) in gen_opt.index_family("A", v):
+            ss = settings([v])
+            for other in ss[1:]:
+                add(name, rec, opts, ss[0], other, ["userslots"])
     # routine families and control skeletons: option pairs at one version and version pairs
     for v in ([6, 8] if not thorough else [4, 5, 6, 7, 8, 9, 10]):
         fam = gen_subs.sub_family("A", v, thorough)
